@@ -67,6 +67,11 @@ type RunCtx struct {
 	Verbose bool
 	priv    any
 	held    []heldBuf // reply buffers handed to harness callers (never released by them)
+	// StrictBufs: releasing one buffer twice is a violation. The tracking
+	// allocator never recycles memory, so "one buffer, two owners" (the real
+	// pool hands a twice-released buffer to two users, whose messages then
+	// overwrite each other) cannot show in any other way.
+	StrictBufs bool
 }
 
 type heldBuf struct {
@@ -153,6 +158,9 @@ func (rc *RunCtx) installBufs() {
 		if bt.released[b] {
 			bt.DoubleRelease++
 			simrt.Probe("buf.double_release")
+			if rc.StrictBufs {
+				rc.Fail("buffer_released_twice", "a %d-byte message buffer was released to the pool twice: the pool will hand it to two users at once, whose messages then overwrite each other", cap(*b))
+			}
 			return
 		}
 		bt.released[b] = true
